@@ -4,7 +4,8 @@ Case kinds (first token `<mode>.<fault>`):
   chunks.*  the sender's chunking (pub.streamPartsAsChunks) of a file layout: tiling/density/totals oracle
   rec.*     real sender chunking -> scripted delivery with one (thorough: up to two) faults -> real
             sub.SyncPart session machine with a recording handler; compared line by line with the Lean model
-  msr.*     the same with the real measure ChunkedSyncHandler on a temp shard (oracle only)
+  msr.* str.* trc.*  the same with the real measure / stream / trace ChunkedSyncHandler on a temp shard (oracle
+            only); half of the cases with chunk sizes 3..16 so that every file is spread over several chunks
   e2e.*     real SyncStreamingParts <-> real SyncPart over an in-process gRPC pipe with one in-flight fault
   rde.*     a file reader of the sender fails mid-part (known finding F17B)
   snd.*     real liaison write-queue shard (measure tsTable: flusher -> syncSnapshot -> executeSyncWithRetry ->
@@ -183,13 +184,22 @@ def chunks_case(rng):
     return "chunks.%s %d %d %d %s" % ("k%d" % min(k, 1), cs, k, rng.choice([0, 1]), show_layout(rand_layout(rng, cs)))
 
 
-def msr_case(rng):
-    fault = rng.choice(["none", "none", "flipd", "flipdr", "flipc", "flipcr", "drop", "drop", "dup", "swap", "swap", "end", "ver"])
+def real_case(rng, mode):
+    """real measure / stream / trace ChunkedSyncHandler; half of the cases use chunk sizes so small that every
+    transferred file (traceID.filter, tag.type, metadata streams included) is spread over several chunks"""
+    fault = rng.choice(["none", "none", "none", "flipd", "flipdr", "flipc", "flipcr", "drop", "drop", "dup", "swap", "swap", "end", "ver"])
     reorder = 1 if rng.random() < 0.75 else 0
     max_buf, max_gap = (10, 5) if rng.random() < 0.7 else (rng.choice([1, 2, 3]), rng.choice([1, 2, 5]))
-    cs = rng.choice([48, 64, 100, 256, 256, 512, 1000, 4096])
-    return "msr.%s %d %d %d %d %d %d %d %d %d" % (fault, reorder, max_buf, max_gap, cs, rng.randrange(1, 10**6),
-                                              rng.randrange(1, 5), rng.randrange(1, 13), rng.randrange(0, 1000), rng.randrange(0, 4096))
+    cs = rng.choice([3, 5, 8, 13, 16]) if rng.random() < 0.5 else rng.choice([48, 64, 100, 256, 512, 1000, 4096])
+    series, points = rng.randrange(1, 5), rng.randrange(1, 13)
+    if cs <= 16:
+        series, points = rng.randrange(1, 3), rng.randrange(1, 6)
+    return "%s.%s %d %d %d %d %d %d %d %d %d" % (mode, fault, reorder, max_buf, max_gap, cs, rng.randrange(1, 10**6),
+                                             series, points, rng.randrange(0, 1000), rng.randrange(0, 4096))
+
+
+def msr_case(rng):
+    return real_case(rng, "msr")
 
 
 def e2e_case(rng):
@@ -219,19 +229,23 @@ def snd_cases(rng, n):
     """real liaison write-queue shard syncing to real data nodes; retry delays are wall clock (1 s, 2 s, 4 s)"""
     out = []
 
-    def line(kind, scripts, quota=0, nparts=1):
-        return "snd.%s %d %s %d %d %d %d %d" % (kind, len(scripts), ",".join(scripts) or "-", quota, rng.randrange(1, 10**6),
-                                            rng.randrange(1, 4), rng.randrange(1, 8), nparts)
-    for _ in range(min(40, max(3, n // 2000))):
-        out.append(line("ok", ["S"] * rng.choice([1, 2, 3]), nparts=rng.choice([1, 1, 2])))
+    def line(kind, scripts, quota=0, shape="1"):
+        return "snd.%s %d %s %d %d %d %d %s" % (kind, len(scripts), ",".join(scripts) or "-", quota, rng.randrange(1, 10**6),
+                                            rng.randrange(1, 4), rng.randrange(1, 8), shape)
+    # one flush window holding mem parts of several time segments, all small shapes
+    shapes = ["1", "2", "3", "1+1", "1+2", "2+1", "2+2", "1+3", "3+1", "1+1+1", "1+1+2", "1+2+1", "2+1+1", "1+2+2", "2+1+2", "1+1+1+2"]
+    for sh in shapes:
+        out.append(line("win" + sh.replace("+", "_"), ["S"] * rng.choice([1, 1, 2]), shape=sh))
+    for _ in range(min(40, n // 2000)):
+        out.append(line("ok", ["S"] * rng.choice([1, 2, 3]), shape=rng.choice(shapes)))
     for _ in range(min(20, max(2, n // 3000))):
         sc = ["S"] * rng.choice([1, 2])
         sc.insert(rng.randrange(len(sc) + 1), rng.choice(["ES", "FS"]))
-        out.append(line("retry1", sc))
+        out.append(line("retry1", sc, shape=rng.choice(["1", "1+2", "2+1"])))
     for _ in range(min(8, max(1, n // 6000))):
         out.append(line("retry2", [rng.choice(["EES", "EFS", "FES"]), "S"]))
     for _ in range(min(8, max(1, n // 6000))):
-        out.append(line("preserved", ["S", rng.choice(["E", "F", "EF"])], nparts=rng.choice([1, 1, 2])))
+        out.append(line("preserved", ["S", rng.choice(["E", "F", "EF"])]))
     for _ in range(min(4, max(1, n // 6000))):
         out.append(line("lost", [rng.choice(["E", "F"])], quota=1))
     out.append(line("nonodes", []))
@@ -287,8 +301,12 @@ class C17(vlib.Spec):
         out = []
         for _ in range(n // 10):
             out.append(chunks_case(rng))
-        for _ in range(min(n // 30, 3000)):
-            out.append(msr_case(rng))
+        for _ in range(min(n // 50, 2000)):
+            out.append(real_case(rng, "msr"))
+        for _ in range(min(n // 50, 2000)):
+            out.append(real_case(rng, "str"))
+        for _ in range(min(n // 50, 2000)):
+            out.append(real_case(rng, "trc"))
         for _ in range(min(n // 40, 2500)):
             out.append(e2e_case(rng))
         for _ in range(n // 40):
@@ -315,8 +333,8 @@ class C17(vlib.Spec):
             return self.oracle_chunks(f, g)
         if mode == "rec":
             return self.oracle_rec(f, kind, g)
-        if mode == "msr":
-            return self.oracle_msr(f, kind, g)
+        if mode in ("msr", "str", "trc"):
+            return self.oracle_msr(f, mode + "." + kind, g, kind)
         if mode == "e2e":
             return self.oracle_e2e(f, kind, g)
         if mode == "rde":
@@ -331,17 +349,23 @@ class C17(vlib.Spec):
             return ("violation", "unexpected driver output: " + g[:200])
         nn, quota = int(f[1]), int(f[3])
         parts, left, failed, delivered = int(kv["parts"]), int(kv["left"]), int(kv["failed"]), kv["delivered"] == "1"
-        if parts != int(f[7]):
-            return ("violation", "liaison flushed %d parts for %s batches" % (parts, f[7]))
+        rows, queued, leftrows = int(kv["rows"]), int(kv["queued"]), int(kv["leftrows"])
+        if queued != rows:
+            return ("violation", "[%s] %d rows were written to the liaison write queue (mem parts per segment: %s) but the parts handed to "
+                                 "the syncer hold %d rows" % (kind, rows, f[7], queued))
         if kv["nodes"] != "-":
             for ent in kv["nodes"].split(","):
                 name, _, v = ent.partition("=")
-                have, dirs, junk, snap = (int(x) for x in v.split("/"))
+                have, dirs, junk, snap, nrows = (int(x) for x in v.split("/"))
                 if junk or snap != dirs:
                     return ("violation", "data node %s holds %d part directories that are not byte-equal to a liaison part (%d dirs, %d in snapshot)" % (name, junk, dirs, snap))
+                if have == parts and dirs == parts and nrows != rows:
+                    return ("violation", "[%s] data node %s holds every liaison part once but %d rows, %d were written" % (kind, name, nrows, rows))
+        if delivered and leftrows + 0 != 0:
+            return ("violation", "[%s] batch delivered but %d rows are still queued" % (kind, leftrows))
         if nn == 0:
-            if kv["ret"] != "err" or left != parts:
-                return ("violation", "no node to sync to, but ret=%s and %d of %d parts left in the queue" % (kv["ret"], left, parts))
+            if kv["ret"] != "err" or left != parts or leftrows != rows:
+                return ("violation", "no node to sync to, but ret=%s and %d of %d parts / %d of %d rows left in the queue" % (kv["ret"], left, parts, leftrows, rows))
             return None
         scripts = f[2].split(",")
         recoverable = all("S" in sc[:4] or sc[-1] == "S" for sc in scripts)
@@ -403,7 +427,7 @@ class C17(vlib.Spec):
             return ("known", "F17B", "sender read error mid-part: " + "; ".join("part %s %s" % x for x in problems)[:300])
         return ("violation", "[rde] parts not involved in the read error are wrong on the receiver: %s" % problems)
 
-    def oracle_msr(self, f, kind, g):
+    def oracle_msr(self, f, kind, g, fault):
         kv = dict(t.split("=", 1) for t in g.split() if "=" in t)
         if "exact" not in kv:
             return ("violation", "unexpected driver output: " + g[:200])
@@ -413,24 +437,24 @@ class C17(vlib.Spec):
         if kv["senderintact"] != "1":
             return ("violation", "[%s] the sender's part directory changed during the transfer" % kind)
         if bad or dirs != exact:
-            return ("violation", "[%s] receiver shard holds %d part directories that are not byte-equal to the sender's part (acks=%s)" % (kind, bad, kv["acks"]))
+            return ("violation", "[%s] receiver shard holds %d part directories that are not byte-equal to the sender's part (differing files: %s; acks=%s)" % (kind, bad, kv.get("diff"), kv["acks"]))
         if snap != exact or got != exact * want:
             return ("violation", "[%s] receiver snapshot has %d parts / %d rows for %d exact part directories of %d rows" % (kind, snap, got, exact, want))
-        complete = "5" in kv["acks"]
+        complete = kv["complete"] == "1"
         if complete and exact < 1:
             return ("violation", "[%s] SYNC_COMPLETE acknowledged but no part installed" % kind)
-        tolerated = kind in ("none", "flipdr", "flipcr")
-        if kind == "dup" and n:
+        tolerated = fault in ("none", "flipdr", "flipcr")
+        if fault == "dup" and n:
             tolerated = (p % n) != 0
-        if kind == "swap" and n >= 2:
+        if fault == "swap" and n >= 2:
             i = p % (n - 1)
             d = 1 + q % (n - 1 - i)
             tolerated = reorder and d <= max_gap and d <= max_buf and i != 0
-        if kind == "swap" and n < 2:
+        if fault == "swap" and n < 2:
             tolerated = True
         if tolerated and not (complete and exact == 1 and kv["ret"] == "ok"):
             return ("violation", "[%s] harmless delivery not completed: acks=%s ret=%s exact=%d" % (kind, kv["acks"], kv["ret"], exact))
-        if not tolerated and kind in ("flipd", "flipc", "drop", "end", "ver") and exact != 0:
+        if not tolerated and fault in ("flipd", "flipc", "drop", "end", "ver") and exact != 0:
             return ("violation", "[%s] a transfer that lost chunk data installed a part" % kind)
         return None
 
